@@ -546,6 +546,19 @@ class Folder:
             if isinstance(e.op, ast.Not):
                 return not self.truth(v, e.operand)
             if isinstance(e.op, ast.USub):
+                if isinstance(v, Rec):
+                    m = self._rec_method(v, "__neg__")
+                    if m is not None:
+                        return self.call_funcval(m, [], {})
+                    inh = getattr(self, "inherited_dunders", None) or {}
+                    if "__neg__" in inh:
+                        return inh["__neg__"](v)
+                    raise Undecidable(f"-{v!r}")
+                if isinstance(v, _np.generic):
+                    import warnings as _w
+                    with _w.catch_warnings():
+                        _w.simplefilter("ignore")
+                        return -v                     # numpy's own rule: an unsigned integer wraps around
                 return -v
             if isinstance(e.op, ast.UAdd):
                 return +v
@@ -755,6 +768,12 @@ class Folder:
             m = self._rec_method(b, names[1])
             if m is not None:
                 return self.call_funcval(m, [a], {})
+            # operators a repository class inherits from a third-party base: a checker-side model supplied by the rule (name -> callable(record, other))
+            inh = getattr(self, "inherited_dunders", None) or {}
+            if isinstance(a, Rec) and names[0] in inh:
+                return inh[names[0]](a, b)
+            if isinstance(b, Rec) and names[1] in inh:
+                return inh[names[1]](b, a)
         if isinstance(a, (_np.ndarray, _np.generic)) or isinstance(b, (_np.ndarray, _np.generic)):
             import operator as _op
             py = {ast.Add: _op.add, ast.Sub: _op.sub, ast.Mult: _op.mul, ast.Div: _op.truediv, ast.Mod: _op.mod, ast.Pow: _op.pow, ast.FloorDiv: _op.floordiv,
@@ -862,6 +881,7 @@ class Folder:
         sub.ctors = self.ctors
         sub.generic_symbols = getattr(self, "generic_symbols", False)
         sub.real_arrays = getattr(self, "real_arrays", False)
+        sub.inherited_dunders = getattr(self, "inherited_dunders", None)
         fa = fv.node.args
         names = [a.arg for a in fa.posonlyargs + fa.args]
         args = list(args)
